@@ -158,14 +158,34 @@ def castStrDate (s : List Char) : Option (Int × Int × Int) :=
 
 /-! ### dispatch (`get_caster`) on the null / same-type clauses -/
 
+/-- the atomic types, binary, a decimal, and two arrays / maps / structs each that differ in their element type
+(`arrayL` = `array<bigint>`, `arrayS` = `array<string>`, `mapL` = `map<string,bigint>`, … `structS` = `struct<a:string>`) -/
 inductive Ty | null | string | boolean | byte | short | int | long | float | double | date | timestamp
+  | binary | decimal | arrayL | arrayS | mapL | mapS | structL | structS
   deriving DecidableEq, Repr
 
-/-- What `get_caster(from, to)(None)` returns: `some none` = Python `None`,
+def Ty.isArray : Ty → Bool | .arrayL | .arrayS => true | _ => false
+def Ty.isMap : Ty → Bool | .mapL | .mapS => true | _ => false
+def Ty.isStruct : Ty → Bool | .structL | .structS => true | _ => false
+
+/-- the pairs `get_caster(from, to)` accepts for a null (for the others calling the caster raises AnalysisException or
+NotImplementedError whatever the value): the same type; to binary only from string; to an array / map / struct only from
+an array / map / struct; to every other type from every type -/
+def castable (from_ to : Ty) : Bool :=
+  from_ == to ||
+  match to with
+  | .binary => from_ == .string
+  | .arrayL | .arrayS => from_.isArray
+  | .mapL | .mapS => from_.isMap
+  | .structL | .structS => from_.isStruct
+  | _ => true
+
+/-- What `get_caster(from, to)(None)` returns: `none` = the pair is refused, `some none` = Python `None`,
 `some (some s)` = the string `s`. Mirrors the code *as it is*: `cast_to_string(None)` is
 the literal `"null"` (known finding, pinned by the repository's own test-suite). -/
 def castNull (from_ to : Ty) : Option (Option String) :=
   if from_ = to then some none            -- identity
+  else if !castable from_ to then none    -- refused
   else match to with
     | .string => some (some "null")
     | _ => some none
